@@ -164,4 +164,415 @@ theorem getSlot_mono : ∀ (c d : Ctx) (k : Nat) (v : V), leL c d → getSlot c 
 
 /-! ## `update_recursively` is monotone in the dictionary that is updated -/
 
+mutual
+/-- the update is contained in the result: `u ⊑ d ⊕ u` -/
+theorem updV_ge : ∀ (u : V) (a : Option V), leV u (updV a u)
+  | .leaf l, _ => by simp [updV, leV]
+  | .dict y, none => by simp only [updV, leV]; exact leL_refl _
+  | .dict y, some (.leaf _) => by simp only [updV, leV]; exact updL_ge y (emptyLike y)
+  | .dict y, some (.dict x) => by simp only [updV, leV]; exact updL_ge y x
+theorem updO_ge : ∀ (u a : Option V), leO u (updO a u)
+  | none, _ => by simp [leO]
+  | some u, a => by simp only [updO, leO]; exact updV_ge u a
+theorem updL_ge : ∀ (u d : Ctx), leL u (updL d u)
+  | [], _ => by simp [leL]
+  | y :: r, [] => by simp only [updL, leL]; exact ⟨updO_ge y none, updL_ge r []⟩
+  | y :: r, x :: d => by simp only [updL, leL]; exact ⟨updO_ge y x, updL_ge r d⟩
+end
+
+mutual
+theorem updV_mono : ∀ (u : V) (a b : Option V), leO a b → leV (updV a u) (updV b u)
+  | .leaf l, _, _, _ => by simp [updV, leV]
+  | .dict y, none, none, _ => leV_refl _
+  | .dict y, none, some (.leaf _), _ => by simp only [updV, leV]; exact updL_ge y _
+  | .dict y, none, some (.dict x), _ => by simp only [updV, leV]; exact updL_ge y x
+  | .dict y, some (.leaf _), none, h => by simp [leO] at h
+  | .dict y, some (.dict _), none, h => by simp [leO] at h
+  | .dict y, some (.leaf _), some (.leaf _), _ => leV_refl _
+  | .dict y, some (.leaf _), some (.dict _), h => by simp [leO, leV] at h
+  | .dict y, some (.dict _), some (.leaf _), h => by simp [leO, leV] at h
+  | .dict y, some (.dict x), some (.dict x'), h => by
+    simp only [updV, leO, leV] at *
+    exact updL_mono y x x' h
+theorem updO_mono : ∀ (u a b : Option V), leO a b → leO (updO a u) (updO b u)
+  | none, a, b, h => by simp only [updO]; exact h
+  | some u, a, b, h => by simp only [updO, leO]; exact updV_mono u a b h
+theorem updL_mono : ∀ (u a b : Ctx), leL a b → leL (updL a u) (updL b u)
+  | [], a, b, h => by simp only [updL]; exact h
+  | y :: r', [], [], _ => leL_refl _
+  | y :: r', [], z :: b, _ => by
+    simp only [updL, leL]
+    exact ⟨updO_mono y none z (by simp [leO]), updL_mono r' [] b (by simp [leL])⟩
+  | y :: r', x :: a, [], h => by
+    simp only [leL] at h
+    have hx := leO_none_right h.1
+    subst hx
+    simp only [updL, leL]
+    exact ⟨leO_refl _, updL_mono r' a [] h.2⟩
+  | y :: r', x :: a, z :: b, h => by
+    simp only [leL] at h
+    simp only [updL, leL]
+    exact ⟨updO_mono y x z h.1, updL_mono r' a b h.2⟩
+end
+
+/-! ## `intersection` is a lower bound and is monotone -/
+
+mutual
+theorem interV_self : ∀ v : V, interV v v = some v
+  | .leaf a => by simp [interV]
+  | .dict x => by simp [interV]
+theorem interO_self : ∀ o : Option V, interO o o = o
+  | none => by simp [interO]
+  | some v => by simp only [interO]; exact interV_self v
+theorem interL_self : ∀ c : Ctx, interL c c = c
+  | [] => by simp [interL]
+  | x :: r => by simp only [interL]; rw [interO_self x, interL_self r]
+end
+
+mutual
+theorem interV_le_left : ∀ (v w : V), leO (interV v w) (some v)
+  | .leaf a, w => by
+    simp only [interV]; split
+    · simp [leO, leV]
+    · simp [leO]
+  | .dict x, w => by
+    simp only [interV]; split
+    · simp only [leO, leV]; exact leL_refl x
+    · cases w with
+      | leaf b => simp [leO]
+      | dict y => simp only [leO, leV]; exact interL_le_left x y
+theorem interO_le_left : ∀ (a b : Option V), leO (interO a b) a
+  | none, _ => by simp [interO, leO]
+  | some _, none => by simp [interO, leO]
+  | some v, some w => by simp only [interO]; exact interV_le_left v w
+theorem interL_le_left : ∀ (a b : Ctx), leL (interL a b) a
+  | [], _ => by simp [interL, leL]
+  | x :: r, [] => by simp only [interL, leL]; exact ⟨interO_le_left x none, interL_le_left r []⟩
+  | x :: r, y :: r' => by simp only [interL, leL]; exact ⟨interO_le_left x y, interL_le_left r r'⟩
+end
+
+mutual
+theorem interV_mono : ∀ (v w v' w' : V), leV v v' → leV w w' → leO (interV v w) (interV v' w')
+  | .leaf a, w, .leaf a', w', h1, h2 => by
+    simp only [leV] at h1; subst h1
+    simp only [interV]
+    by_cases hw : w = .leaf a
+    · subst hw
+      cases w' with
+      | leaf b => simp only [leV] at h2; subst h2; simp [leO, leV]
+      | dict _ => simp [leV] at h2
+    · simp [hw, leO]
+  | .leaf _, _, .dict _, _, h1, _ => by simp [leV] at h1
+  | .dict _, _, .leaf _, _, h1, _ => by simp [leV] at h1
+  | .dict x, .leaf b, .dict x', w', _, _ => by simp [interV, leO]
+  | .dict x, .dict y, .dict x', .leaf _, _, h2 => by simp [leV] at h2
+  | .dict x, .dict y, .dict x', .dict y', h1, h2 => by
+    simp only [leV] at h1 h2
+    simp only [interV]
+    by_cases hyx : (Val.dict y : V) = .dict x
+    · have : y = x := by simpa using hyx
+      subst this
+      rw [if_pos rfl]
+      by_cases h' : (Val.dict y' : V) = .dict x'
+      · rw [if_pos h']; simp only [leO, leV]; exact h1
+      · rw [if_neg h']; simp only [leO, leV]
+        have := interL_mono y y x' y' h1 h2
+        rwa [interL_self] at this
+    · rw [if_neg hyx]
+      by_cases h' : (Val.dict y' : V) = .dict x'
+      · rw [if_pos h']; simp only [leO, leV]
+        exact leL_trans _ _ _ (interL_le_left x y) h1
+      · rw [if_neg h']; simp only [leO, leV]
+        exact interL_mono x y x' y' h1 h2
+theorem interO_mono : ∀ (a b a' b' : Option V), leO a a' → leO b b' → leO (interO a b) (interO a' b')
+  | none, _, _, _, _, _ => by simp [interO, leO]
+  | some _, none, _, _, _, _ => by simp [interO, leO]
+  | some _, some _, none, _, h1, _ => by simp [leO] at h1
+  | some _, some _, some _, none, _, h2 => by simp [leO] at h2
+  | some v, some w, some v', some w', h1, h2 => by
+    simp only [leO] at h1 h2
+    simp only [interO]; exact interV_mono v w v' w' h1 h2
+theorem interL_mono : ∀ (a b a' b' : Ctx), leL a a' → leL b b' → leL (interL a b) (interL a' b')
+  | [], _, _, _, _, _ => by simp [interL, leL]
+  | x :: r, b, [], b', h1, _ => by
+    simp only [leL] at h1
+    have hx := leO_none_right h1.1
+    subst hx
+    have hr : nonEmpty (interL (none :: r) b) = false := by
+      have h0 : nonEmpty (none :: r : Ctx) = false := by
+        have := nonEmpty_false_of_le h1.2 (by simp [nonEmpty])
+        simpa [nonEmpty] using this
+      exact nonEmpty_false_of_le (interL_le_left _ b) h0
+    exact leL_of_not_nonEmpty _ _ hr
+  | x :: r, [], x' :: r', b', h1, _ => by
+    simp only [leL] at h1
+    cases b' with
+    | nil =>
+      simp only [interL, leL]
+      exact ⟨interO_mono x none x' none h1.1 (by simp [leO]), interL_mono r [] r' [] h1.2 (by simp [leL])⟩
+    | cons y' b' =>
+      simp only [interL, leL]
+      exact ⟨interO_mono x none x' y' h1.1 (by simp [leO]), interL_mono r [] r' b' h1.2 (by simp [leL])⟩
+  | x :: r, y :: b, x' :: r', [], h1, h2 => by
+    simp only [leL] at h1 h2
+    have hy := leO_none_right h2.1
+    subst hy
+    simp only [interL, leL]
+    exact ⟨interO_mono x none x' none h1.1 (by simp [leO]), interL_mono r b r' [] h1.2 h2.2⟩
+  | x :: r, y :: b, x' :: r', y' :: b', h1, h2 => by
+    simp only [leL] at h1 h2
+    simp only [interL, leL]
+    exact ⟨interO_mono x y x' y' h1.1 h2.1, interL_mono r b r' b' h1.2 h2.2⟩
+end
+
+/-- pointwise relation of two lists of the same length -/
+inductive All2 {α β : Type} (R : α → β → Prop) : List α → List β → Prop where
+  | nil : All2 R [] []
+  | cons {a b as bs} : R a b → All2 R as bs → All2 R (a :: as) (b :: bs)
+
+mutual
+theorem interV_le_right : ∀ (v w : V), leO (interV v w) (some w)
+  | .leaf a, w => by
+    simp only [interV]
+    by_cases h : w = .leaf a
+    · rw [if_pos h, h]; simp [leO, leV]
+    · rw [if_neg h]; simp [leO]
+  | .dict x, w => by
+    simp only [interV]
+    by_cases h : w = .dict x
+    · rw [if_pos h, h]; simp only [leO, leV]; exact leL_refl x
+    · rw [if_neg h]
+      cases w with
+      | leaf b => simp [leO]
+      | dict y => simp only [leO, leV]; exact interL_le_right x y
+theorem interO_le_right : ∀ (a b : Option V), leO (interO a b) b
+  | none, _ => by simp [interO, leO]
+  | some _, none => by simp [interO, leO]
+  | some v, some w => by simp only [interO]; exact interV_le_right v w
+theorem interL_le_right : ∀ (a b : Ctx), leL (interL a b) b
+  | [], _ => by simp [interL, leL]
+  | x :: r, [] => by
+    simp only [interL, leL]
+    refine ⟨?_, interL_le_right r []⟩
+    cases x <;> simp [interO, leO]
+  | x :: r, y :: r' => by simp only [interL, leL]; exact ⟨interO_le_right x y, interL_le_right r r'⟩
+end
+
+/-- the result of `intersection` is below every argument … -/
+theorem interFold_le : ∀ (ds : List Ctx) (res : Ctx), leL (interFold res ds) res ∧ ∀ d ∈ ds, leL (interFold res ds) d
+  | [], res => ⟨by simpa [interFold] using leL_refl res, by simp⟩
+  | d :: ds, res => by
+    simp only [interFold]
+    by_cases hne : nonEmpty (interL res d) = true
+    · simp only [hne, if_true]
+      obtain ⟨h1, h2⟩ := interFold_le ds (interL res d)
+      refine ⟨leL_trans _ _ _ h1 (interL_le_left res d), ?_⟩
+      intro d' hd'
+      simp only [List.mem_cons] at hd'
+      rcases hd' with hd' | hd'
+      · subst hd'; exact leL_trans _ _ _ h1 (interL_le_right res d')
+      · exact h2 d' hd'
+    · have hne' : nonEmpty (interL res d) = false := by simpa using hne
+      simp only [hne]
+      exact ⟨leL_of_not_nonEmpty _ _ hne', fun d' _ => leL_of_not_nonEmpty _ _ hne'⟩
+
+theorem interN_le (n : Nat) (cs : List Ctx) (c : Ctx) (hc : c ∈ cs) : leL (interN n cs) c := by
+  cases cs with
+  | nil => simp at hc
+  | cons c0 cs =>
+    simp only [interN]
+    simp only [List.mem_cons] at hc
+    rcases hc with hc | hc
+    · subst hc; exact (interFold_le cs c).1
+    · exact (interFold_le cs c0).2 c hc
+
+/-- … and is the greatest such context -/
+theorem interL_glb (x a b : Ctx) (ha : leL x a) (hb : leL x b) : leL x (interL a b) := by
+  have := interL_mono x x a b ha hb
+  rwa [interL_self] at this
+
+theorem interFold_glb : ∀ (ds : List Ctx) (res x : Ctx), leL x res → (∀ d ∈ ds, leL x d) → leL x (interFold res ds)
+  | [], res, x, h, _ => by simpa [interFold] using h
+  | d :: ds, res, x, h, hd => by
+    simp only [interFold]
+    have h1 := interL_glb x res d h (hd d (by simp))
+    by_cases hne : nonEmpty (interL res d) = true
+    · simp only [hne, if_true]
+      exact interFold_glb ds _ x h1 (fun d' hd' => hd d' (by simp [hd']))
+    · simp only [hne]; exact h1
+
+theorem interN_glb (n : Nat) (cs : List Ctx) (x : Ctx) (hne : cs ≠ []) (h : ∀ c ∈ cs, leL x c) : leL x (interN n cs) := by
+  cases cs with
+  | nil => simp at hne
+  | cons c0 cs =>
+    simp only [interN]
+    exact interFold_glb cs c0 x (h c0 (by simp)) (fun d hd => h d (by simp [hd]))
+
+theorem interFold_mono : ∀ (ds ds' : List Ctx) (res res' : Ctx), All2 leL ds ds' → leL res res' →
+    leL (interFold res ds) (interFold res' ds')
+  | [], _, res, res', h, hr => by cases h; simpa [interFold] using hr
+  | d :: ds, _, res, res', h, hr => by
+    cases h with
+    | cons hd htl =>
+      rename_i d' ds'
+      simp only [interFold]
+      have h1 := interL_mono res d res' d' hr hd
+      by_cases hne : nonEmpty (interL res d) = true
+      · have hne' := nonEmpty_mono _ _ h1 hne
+        simp only [hne, hne', if_true]
+        exact interFold_mono ds ds' _ _ htl h1
+      · simp only [hne]
+        exact leL_of_not_nonEmpty _ _ (by simpa using hne)
+
+theorem interN_mono (n : Nat) (cs cs' : List Ctx) (h : All2 leL cs cs') :
+    leL (interN n cs) (interN n cs') := by
+  cases h with
+  | nil => exact leL_refl _
+  | cons hd htl => simp only [interN]; exact interFold_mono _ _ _ _ htl hd
+
+/-! ## lengths: every context of the protocol has `n` slots at top level -/
+
+theorem updL_length : ∀ (d u : Ctx), (updL d u).length = max d.length u.length
+  | d, [] => by simp [updL]
+  | [], y :: r => by simp [updL, updL_length [] r]
+  | x :: d, y :: r => by simp [updL, updL_length d r]
+
+theorem interL_length : ∀ (a b : Ctx), (interL a b).length = a.length
+  | [], _ => by simp [interL]
+  | x :: r, [] => by simp [interL, interL_length r []]
+  | x :: r, y :: b => by simp [interL, interL_length r b]
+
+theorem interFold_length : ∀ (ds : List Ctx) (res : Ctx), (interFold res ds).length = res.length
+  | [], _ => by simp [interFold]
+  | d :: ds, res => by
+    simp only [interFold]; split
+    · rw [interFold_length ds, interL_length]
+    · rw [interL_length]
+
+theorem interN_length (n : Nat) (cs : List Ctx) (h : ∀ c ∈ cs, c.length = n) : (interN n cs).length = n := by
+  cases cs with
+  | nil => simp [interN, Val.empty]
+  | cons c cs => simp only [interN]; rw [interFold_length]; exact h c (by simp)
+
+theorem single_length (n k : Nat) (ks : List Nat) (l : Leaf) : (single n k ks l).length = n := by
+  cases ks <;> simp [single]
+
+/-! ## lookups and formatting are monotone while they succeed -/
+
+theorem getRec_mono : ∀ (p : List Nat) (c d : Ctx) (v : V), leL c d → getRec c p = .ok v →
+    ∃ w, getRec d p = .ok w ∧ leV v w
+  | [], c, d, v, h, hv => by
+    simp only [getRec] at hv
+    cases hv
+    exact ⟨.dict d, by simp [getRec], by simpa [leV] using h⟩
+  | [k], c, d, v, h, hv => by
+    simp only [getRec] at hv ⊢
+    cases hs : getSlot c k with
+    | none => simp [hs] at hv
+    | some v0 =>
+      simp only [hs] at hv
+      cases hv
+      obtain ⟨w, hw, hvw⟩ := getSlot_mono c d k v h hs
+      exact ⟨w, by simp [hw], hvw⟩
+  | k :: k' :: ks, c, d, v, h, hv => by
+    simp only [getRec] at hv ⊢
+    cases hs : getSlot c k with
+    | none => simp [hs] at hv
+    | some v0 =>
+      cases v0 with
+      | leaf _ => simp [hs] at hv
+      | dict c' =>
+        simp only [hs] at hv
+        obtain ⟨w, hw, hvw⟩ := getSlot_mono c d k _ h hs
+        cases w with
+        | leaf _ => simp [leV] at hvw
+        | dict d' =>
+          simp only [leV] at hvw
+          simp only [hw]
+          exact getRec_mono (k' :: ks) c' d' v hvw hv
+
+theorem render_mono : ∀ (v w : V), leV v w → render v = render w
+  | .leaf a, .leaf b, h => by simp only [leV] at h; subst h; rfl
+  | .dict _, .dict _, _ => by simp [render]
+  | .leaf _, .dict _, h => by simp [leV] at h
+  | .dict _, .leaf _, h => by simp [leV] at h
+
+theorem renderAll_mono : ∀ (vs ws : List (V × String)) (acc : String),
+    All2 (fun a b => leV a.1 b.1 ∧ a.2 = b.2) vs ws → renderAll acc vs = renderAll acc ws
+  | [], _, _, h => by cases h; rfl
+  | (v, lit) :: vs, _, acc, h => by
+    cases h with
+    | cons hd htl =>
+      rename_i b ws
+      obtain ⟨w, lit'⟩ := b
+      simp only at hd
+      obtain ⟨h1, h2⟩ := hd
+      subst h2
+      simp only [renderAll, render_mono v w h1]
+      cases render w with
+      | none => rfl
+      | some s => exact renderAll_mono vs ws _ htl
+
+theorem lookups_mono : ∀ (ps : List (List Nat × String)) (c d : Ctx) (vs : List (V × String)), leL c d →
+    lookups c ps = .ok vs →
+    ∃ ws, lookups d ps = .ok ws ∧ All2 (fun a b => leV a.1 b.1 ∧ a.2 = b.2) vs ws
+  | [], c, d, vs, _, hv => by
+    simp only [lookups] at hv; cases hv
+    exact ⟨[], by simp [lookups], All2.nil⟩
+  | (p, lit) :: ps, c, d, vs, h, hv => by
+    simp only [lookups] at hv ⊢
+    cases hg : getRec c p with
+    | error e => simp [hg] at hv
+    | ok v =>
+      simp only [hg] at hv
+      cases hl : lookups c ps with
+      | error e => simp [hl] at hv
+      | ok vs' =>
+        simp only [hl] at hv
+        cases hv
+        obtain ⟨w, hw, hvw⟩ := getRec_mono p c d v h hg
+        obtain ⟨ws, hws, hf⟩ := lookups_mono ps c d vs' h hl
+        exact ⟨(w, lit) :: ws, by simp [hw, hws], All2.cons ⟨hvw, rfl⟩ hf⟩
+
+theorem fmt_mono (t : Tpl) (c d : Ctx) (l : Leaf) (h : leL c d) (hv : fmt t c = .ok l) : fmt t d = .ok l := by
+  simp only [fmt] at hv ⊢
+  cases hl : lookups c t.parts with
+  | error e => simp [hl] at hv
+  | ok vs =>
+    obtain ⟨ws, hws, hf⟩ := lookups_mono t.parts c d vs h hl
+    simp only [hl] at hv
+    simp only [hws, ← renderAll_mono vs ws t.head hf]
+    exact hv
+
+theorem fmtUpdate_mono (n k : Nat) (ks : List Nat) (v : SVal) (c d x : Ctx) (h : leL c d)
+    (hv : fmtUpdate n k ks v c = .ok x) : ∃ y, fmtUpdate n k ks v d = .ok y ∧ leL x y := by
+  cases v with
+  | const l =>
+    simp only [fmtUpdate] at hv ⊢
+    cases hv
+    exact ⟨_, rfl, updL_mono _ _ _ h⟩
+  | tpl t =>
+    simp only [fmtUpdate] at hv ⊢
+    cases hf : fmt t c with
+    | error e => simp [hf] at hv
+    | ok l =>
+      simp only [hf] at hv
+      cases hv
+      simp only [fmt_mono t c d l h hf]
+      exact ⟨_, rfl, updL_mono _ _ _ h⟩
+
+theorem fmtUpdate_length (n k : Nat) (ks : List Nat) (v : SVal) (c x : Ctx) (hc : c.length = n)
+    (hv : fmtUpdate n k ks v c = .ok x) : x.length = n := by
+  cases v with
+  | const l =>
+    simp only [fmtUpdate] at hv; cases hv
+    simp [updL_length, single_length, hc]
+  | tpl t =>
+    simp only [fmtUpdate] at hv
+    cases hf : fmt t c with
+    | error e => simp [hf] at hv
+    | ok l =>
+      simp only [hf] at hv; cases hv
+      simp [updL_length, single_length, hc]
+
 end Lena.C13
